@@ -58,7 +58,21 @@ RULE = ('cases = acyclic rule sets (1-4 rules, rule: references to lower rules) 
         'texts are ordinary: clean, referencing an undefined rule, or referencing a cycle, so that the load-time reports often '
         'concern an odd name and a normal one together; the normally named rules that reach no cycle (and an unknown name, '
         'registered defaults) are enforced by name, twice, do_raise off and on, also after the file was touched: only the '
-        'documented exceptions (no decision is demanded).')
+        'documented exceptions (no decision is demanded). '
+        'PK = a leaf (generic with a path or a literal left side, role:, the placeholder alone, after a prefix, beside a second placeholder; '
+        'plain, negated, referenced, combined) whose match holds a well-formed placeholder with a key that is not an identifier (segments joined '
+        'by dots, colons, dashes, slashes: %(a.b)s, %(a:b)s, %(project-id)s) against a FLAT target that lacks this key and holds, under keys '
+        'that are PREFIXES of it, values of every JSON type (null, booleans, numbers, strings, lists, mappings - among them mappings in which '
+        'the rest of the key would lead to the matching text), look-alike keys, or neither (sometimes the key itself: exception surface only); '
+        'plain dict targets mostly, other containers sometimes; rules set directly or as registered defaults; by name and as check object; '
+        'do_raise off/on; debug logging off/on: only the documented exceptions, and in a dict / OrderedDict / plain dict subclass without the '
+        'key the placeholder cannot be filled, so the leaf denies. '
+        'LE = list-of-lists rules in which an inner list holds one to three empty or whitespace-only strings alone, in the first / middle / '
+        'last position or around real checks (role:, @, !, rule:), beside well-formed inner lists and bare strings, referenced from text and '
+        'list rules; given as a policy file or policy_dirs file (JSON, YAML, YAML lines), overriding a registered text default, as a dict '
+        '(Rules.from_dict), a text (Rules.load) or RuleDefault values; enforced for every role set by name and as check object, do_raise '
+        'off/on: only the documented exceptions, and a decision that equals the rule\'s value with the blank conjunct ALLOWING (or dropped) '
+        'and differs from its value with the blank conjunct denying is a violation (a blank entry cannot be understood as a check: it denies).')
 ASSUMPTIONS =['roles in credentials are a list of strings (the statement\'s precondition)',
                'http:/https: kinds are excluded here: their transport errors are C16\'s subject',
                '% appears only inside well-formed %(name)s placeholders']
@@ -66,7 +80,7 @@ LEVEL_TEXT = ('Seeded hostile fuzzing with an exception-surface oracle; the inpu
               'fragment-based generator plus a curated alphabet is the appropriate level (no finite enumeration exists).')
 LEVEL_NOTE = 'trusted: the list of documented exceptions taken from the statement; the curated "certainly unevaluable" list'
 PLAN = {'quick': dict(shards=4, wall=120), 'thorough': dict(shards=16, wall=400)}
-MIN = {'inner_list_element_enforce_calls': 1000, 'inner_list_element_odd_rule_calls': 150, 'inner_list_element_vs_alone_comparisons': 500, 'nontext_name_enforce_calls': 1000, 'nontext_name_shared_warning_cases': 40, 'check_object_enforce_calls': 4000, 'check_object_leaf_root_calls': 1500, 'check_object_unhashable_root_calls': 150,
+MIN = {'placeholder_key_enforce_calls': 600, 'placeholder_key_missing_decisions': 450, 'blank_entry_enforce_calls': 1200, 'blank_entry_decisions': 1200, 'inner_list_element_enforce_calls': 1000, 'inner_list_element_odd_rule_calls': 150, 'inner_list_element_vs_alone_comparisons': 500, 'nontext_name_enforce_calls': 1000, 'nontext_name_shared_warning_cases': 40, 'check_object_enforce_calls': 4000, 'check_object_leaf_root_calls': 1500, 'check_object_unhashable_root_calls': 150,
        'check_object_vs_name_comparisons': 2000, 'empty_segment_path_decisions': 1000, 'container_enforce_calls': 3000, 'overlapping_evaluations': 200, 'deleted_reference_decisions': 100, 'file_override_enforce_calls': 100, 'same_target_comparisons': 500, 'evaluations': 5000, 'enforce_calls': 10000, 'hostile_leaves': 5000, 'unevaluable_leaf_rules': 500}
 ANCHORS = ['oslo_policy._checks:GenericCheck.__call__', 'oslo_policy._checks:GenericCheck._find_in_dict',
            'oslo_policy._checks:RoleCheck.__call__', 'oslo_policy.policy:Enforcer.enforce']
@@ -798,8 +812,353 @@ def check_containers(ctx, real, case):
                                                              type(exc).__name__ if exc else 'decision'))
 
 
+# stratum PK: placeholder keys that are not identifiers (dots, colons, dashes) against FLAT targets
+PK_CASES = {'quick': 800, 'thorough': 16000}
+PK_SEGS = ['a', 'b', 'c', 'project', 'id', 'user', 'domain_id', 'é', '0', 'x', 't', 'roles', 'target', 'name', 'k_1']
+PK_SEPS = ['.', '.', '.', '.', '.', ':', '-', '..', '/', '.-', ':.']
+PK_MATCHES = ['1', 'r', 'admin', 'x', 'True', 'None', 'é', '1.5']
+PK_PLAIN_VALUES = [None, True, False, 0, 5, -1, 1.5, 10 ** 30, 's', '', 'text', [], [1, 2], ['b'], {}, {'zz': 1}, [[]], [{}]]
+PK_MODES = ['neither', 'prefix', 'prefix', 'prefix', 'prefix', 'prefix-many', 'present', 'lookalike']
+PK_STYLES = ['path', 'path', 'path2', 'literal', 'role', 'role', 'embedded', 'two']
+PK_TARGET_CONTAINERS = ['dict'] * 12 + ['ordereddict', 'dict-subclass', 'mappingproxy', 'readonly-mapping', 'userdict', 'chainmap']
+PK_PLAIN_MISSING = ('dict', 'ordereddict', 'dict-subclass')      # containers in which an absent key is certainly absent
+PK_ROUTES = ['set_rules', 'set_rules', 'set_rules', 'registered']
+
+
+def wrap_leaf(rnd, leaf):
+    """A leaf that must deny, alone / negated / referenced / combined -> (rules, expected decisions)."""
+    form = rnd.choice(E_FORMS)
+    if form == 'plain':
+        return form, {'p': leaf}, {'p': False}
+    if form == 'not':
+        return form, {'p': 'not ' + leaf}, {'p': True}
+    if form == 'ref':
+        return form, {'p0': leaf, 'p': 'rule:p0'}, {'p0': False, 'p': False}
+    if form == 'not-ref':
+        return form, {'p0': leaf, 'p': 'not rule:p0'}, {'p0': False, 'p': True}
+    if form == 'or-false':
+        return form, {'p': '%s or role:zz_nobody or !' % leaf}, {'p': False}
+    if form == 'and-true':
+        return form, {'p': '@ and %s' % leaf, 'p1': '(%s)' % leaf}, {'p': False, 'p1': False}
+    return form, {'p': 'not not %s' % leaf}, {'p': False}
+
+
+def nested_value(rnd, rest, seps, m):
+    """A value under a PREFIX of the placeholder key in which the rest of the key would lead to the matching text - were
+    the flat key read as a path."""
+    q = rnd.random()
+    if q < 0.35 or len(rest) == 1:
+        inner = {''.join(x for pair in zip(rest, seps + ['']) for x in pair): m}
+    else:
+        inner = m
+        for s in reversed(rest):
+            inner = {s: inner}
+    if rnd.random() < 0.15:
+        inner = [inner]
+    elif rnd.random() < 0.2 and isinstance(inner, dict):
+        inner['other'] = rnd.choice(PK_PLAIN_VALUES)
+    return inner
+
+
+def gen_placeholder_key_case(rnd):
+    """A leaf whose match holds a well-formed placeholder with a key that is not an identifier (`%(a.b)s`, `%(a:b)s`,
+    `%(project-id)s`), and a FLAT target that lacks this key but has keys that are prefixes of it (values of every JSON type,
+    among them mappings in which the rest of the key WOULD lead to the matching text), look-alike keys, or neither; sometimes
+    the key itself.  The credentials are such that the leaf would match, were the placeholder filled with the matching text."""
+    n = rnd.choice([2, 2, 2, 3, 3, 4])
+    segs = [rnd.choice(PK_SEGS) for _ in range(n)]
+    seps = [rnd.choice(PK_SEPS) for _ in range(n - 1)]
+    key = ''.join(x for pair in zip(segs, seps + ['']) for x in pair)
+    q = rnd.random()
+    if q < 0.06:
+        key = '.' + key
+    elif q < 0.12:
+        key = key + '.'
+    m = rnd.choice(PK_MATCHES)
+    mode = rnd.choice(PK_MODES)
+    target = {}
+    for k in ('t2', 'roles', 'x', segs[-1] + '_'):
+        if rnd.random() < 0.25:
+            target[k] = rnd.choice(PK_PLAIN_VALUES + [m])
+    prefixes = []
+    for i in range(1, n):
+        prefix = ''.join(x for pair in zip(segs[:i], seps[:i - 1] + ['']) for x in pair)
+        prefixes.append((prefix, segs[i:], seps[i:]))
+    chosen = []
+    if mode == 'prefix':
+        chosen = [rnd.choice(prefixes)]
+    elif mode == 'prefix-many':
+        chosen = prefixes
+    elif mode == 'present':
+        chosen = [p for p in prefixes if rnd.random() < 0.4]
+    for prefix, rest, rest_seps in chosen:
+        target[prefix] = (nested_value(rnd, rest, rest_seps, m) if rnd.random() < 0.4 else copy.deepcopy(rnd.choice(PK_PLAIN_VALUES)))
+    if mode == 'lookalike':
+        for alike in rnd.sample([key.replace('.', '_'), key.upper(), segs[-1], segs[0] + segs[-1], key + '.', key.replace('.', ''),
+                                 ' ' + key, key.replace('.', '..'), segs[0]], 3):
+            target[alike] = m
+    if mode == 'present':
+        target[key] = rnd.choice([m, m, copy.deepcopy(rnd.choice(PK_PLAIN_VALUES))])
+    else:
+        target.pop(key, None)
+    creds = gen_creds(rnd)
+    creds.update({'roles': [m, 'member'], 'x': m, 'u': {'v': m}})
+    style = rnd.choice(PK_STYLES)
+    ph = '%%(%s)s' % key
+    if style == 'path':
+        leaf = 'x:' + ph
+    elif style == 'path2':
+        leaf = 'u.v:' + ph
+    elif style == 'literal':
+        leaf = '%s:%s' % (m if is_python_literal(m) else "'%s'" % m, ph)
+    elif style == 'role':
+        leaf = 'role:' + ph
+    elif style == 'embedded':
+        creds['x'] = 'pre' + m
+        leaf = 'x:pre' + ph
+    else:
+        target['t'] = 'p'
+        creds['x'] = 'p' + m
+        leaf = 'x:%(t)s' + ph
+    form, rules, expect = wrap_leaf(rnd, leaf)
+    return dict(kind='PK', key=key, mode=mode, style=style, form=form, rules=rules, expect=expect, target=target, creds=creds,
+                target_container=rnd.choice(PK_TARGET_CONTAINERS), route=rnd.choice(PK_ROUTES), as_object=rnd.random() < 0.4,
+                debug=rnd.random() < 0.1)
+
+
+def check_placeholder_keys(ctx, real, case):
+    """The target is FLAT: %(a.b)s names the key "a.b".  A target without that key - whatever it holds under `a`, under
+    look-alike keys, or nothing - leaves the placeholder unfilled: the leaf cannot be evaluated and denies; nothing but the
+    documented exceptions may leave enforce (rule by name and as check object, do_raise off and on)."""
+    import contextlib
+    policy, _ = real
+    use_conf = case['route'] == 'registered'
+    enf = policy.Enforcer(env.fresh_conf(), use_conf=use_conf)
+    ctx.case(['placeholder-keys', case['rules'], case['target'], case['creds'], case['target_container'], case['route']],
+             nontrivial=True, stratum='PK')
+    try:
+        if use_conf:
+            for name in sorted(case['rules']):
+                enf.register_default(policy.RuleDefault(name, case['rules'][name]))
+            enf.load_rules()
+        else:
+            enf.set_rules(policy.Rules.from_dict(case['rules']))
+    except Exception as e:
+        ctx.violation('load-raises', case, {'rules': case['rules'], 'route': case['route'], 'observed': type(e).__name__ + ': ' + str(e)[:100]})
+        return
+    make_target = CONTAINERS[case['target_container']]
+    missing = case['key'] not in case['target']
+    certain = missing and case['target_container'] in PK_PLAIN_MISSING
+    prefix_kinds = sorted(set(type(v).__name__ for k, v in case['target'].items()
+                              if k and k != case['key'] and case['key'].startswith(k)))
+    with (env.debug_logging() if case.get('debug') else contextlib.nullcontext()):
+        for name in sorted(case['rules']):
+            handles = [('name', name)]
+            if case['as_object'] and name in enf.rules:
+                handles.append(('check object', enf.rules[name]))
+            for passed_as, rule in handles:
+                for do_raise in (False, True):
+                    try:
+                        got = enf.enforce(rule, make_target(copy.deepcopy(case['target'])), copy.deepcopy(case['creds']), do_raise=do_raise)
+                        o = ('decision', bool(got))
+                    except Exception as e:
+                        o = ('raised', type(e).__name__, str(e)[:160])
+                    ctx.count('placeholder_key_enforce_calls')
+                    ctx.count('placeholder_key_enforce_calls.' + case['mode'])
+                    for t in prefix_kinds:
+                        ctx.count('placeholder_key_enforce_calls.prefix-value-' + t)
+                    detail = {'rules': case['rules'], 'enforced': name, 'passed_as': passed_as, 'placeholder_key': case['key'],
+                              'target': case['target'], 'target_container': case['target_container'],
+                              'key_in_target': not missing, 'creds': case['creds'], 'do_raise': do_raise, 'route': case['route']}
+                    if o[0] == 'raised' and o[1] not in DOCUMENTED:
+                        ctx.violation('missing-placeholder-key-raises' if missing else surface_key(o[1], o[2]), case,
+                                      dict(detail, observed='%s: %s' % o[1:]))
+                        return
+                    if not certain:
+                        ctx.unconstrained('placeholder-key-present' if not missing else 'placeholder-key-in-another-container')
+                        continue
+                    ctx.count('placeholder_key_missing_decisions')
+                    allowed = o == ('decision', True)
+                    if allowed != bool(case['expect'][name]):
+                        ctx.violation('unevaluable-check-allows', case,
+                                      dict(detail, expected='allow' if case['expect'][name] else 'deny', observed=list(o),
+                                           why='the flat target has no key %r: the placeholder cannot be filled, the leaf denies' % case['key']))
+                        return
+
+
+# stratum LE: list-of-lists rules whose inner lists hold empty / whitespace-only strings
+LE_CASES = {'quick': 320, 'thorough': 10000}
+LE_BLANKS = ['', '', '', '', ' ', '  ', '\t', '\n', ' \t ', '\r\n', '\u00a0']
+LE_REAL = ['role:admin', 'role:r', 'role:zz', '@', '!', 'rule:w.adm', 'role:admin', 'role:r']
+LE_ROUTES = ['file', 'file', 'dir-file', 'dict', 'dict', 'load', 'ruledefault', 'file-over-registered']
+LE_ROLE_SETS = [[], ['r'], ['admin'], ['admin', 'r']]
+
+
+def is_blank(text):
+    return isinstance(text, str) and not text.strip()
+
+
+def le_reference(value, roles, blank):
+    """Decision of a list-of-lists rule (outer: or, inner: and) over role: / @ / ! / rule:w.adm entries, a blank entry
+    counting as `blank`."""
+    def entry(e):
+        if is_blank(e):
+            return blank
+        if e == '@':
+            return True
+        if e == '!':
+            return False
+        if e == 'rule:w.adm':
+            return 'admin' in roles
+        return e.split(':', 1)[1] in roles
+    return any(all(entry(e) for e in inner) if isinstance(inner, list) else entry(inner) for inner in value)
+
+
+def gen_blank_entry_case(rnd):
+    """A list-of-lists rule with one or more inner lists that hold an empty or whitespace-only string - alone, repeated, or
+    in the first / middle / last position beside real checks -, beside well-formed inner lists and bare strings; rules that
+    refer to it; given through a file (JSON / YAML), a directory file, a dict, a text, a registered default."""
+    real = lambda lo=1: [rnd.choice(LE_REAL) for _ in range(rnd.randint(lo, 2))]
+    blanks = lambda: [rnd.choice(LE_BLANKS) for _ in range(rnd.choice([1, 1, 1, 2, 3]))]
+
+    def blank_inner():
+        pos = rnd.choice(['only', 'only', 'first', 'middle', 'last', 'around'])
+        if pos == 'only':
+            return pos, blanks()
+        if pos == 'first':
+            return pos, blanks() + real()
+        if pos == 'middle':
+            return pos, real() + blanks() + real()
+        if pos == 'last':
+            return pos, real() + blanks()
+        return pos, blanks() + real() + blanks()
+
+    pos, inner = blank_inner()
+    positions = [pos]
+    shape = rnd.randrange(7)
+    if shape <= 1:
+        value = [inner]
+    elif shape == 2:
+        value = [inner, real()]
+    elif shape == 3:
+        value = [real(), inner]
+    elif shape == 4:
+        value = [rnd.choice(LE_REAL), inner]
+    elif shape == 5:
+        pos2, inner2 = blank_inner()
+        positions.append(pos2)
+        value = [inner, inner2]
+    else:
+        value = [real(), inner, rnd.choice(LE_BLANKS)]       # a blank bare string at the outer level as well
+    rules = collections.OrderedDict()
+    rules['x.blank'] = value
+    rules['w.adm'] = rnd.choice(['role:admin', [['role:admin']]])
+    rules['w.txt'] = 'role:r or role:admin'
+    refs = {'w.ref': ['rule:x.blank or role:zz', 'same'], 'w.notref': ['not rule:x.blank', 'negated'],
+            'w.listref': [[['rule:x.blank', '@']], 'same'], 'w.andref': ['@ and rule:x.blank', 'same']}
+    ref_kinds = {}
+    for name in rnd.sample(sorted(refs), rnd.randint(0, 2)):
+        rules[name], ref_kinds[name] = refs[name]
+    pairs = list(rules.items())
+    rnd.shuffle(pairs)
+    return dict(kind='LE', via=rnd.choice(LE_ROUTES), fmt=rnd.choice(INNER_FORMATS), rules=[list(p) for p in pairs],
+                ref_kinds=ref_kinds, positions=positions, registered_text=rnd.choice(['role:admin', '@', '!', 'role:zz']),
+                as_object=rnd.random() < 0.4, target={} if rnd.random() < 0.6 else {'t': 'x', 'project_id': 'p1'},
+                debug=rnd.random() < 0.1)
+
+
+def check_blank_entries(ctx, real, case):
+    """An empty / whitespace-only string inside an inner list is a conjunct that cannot be understood: it denies, and with
+    it its conjunction (it is neither dropped nor an empty conjunction that allows).  Every rule of the set is enforced for
+    every role set, by name (and as check object), do_raise off and on."""
+    import contextlib
+    policy, _ = real
+    from pv.gen import files
+    pairs = [(n, v) for n, v in case['rules']]
+    value = dict(pairs)['x.blank']
+    via = case['via']
+    ctx.case(['blank-entries', case['rules'], via, case['fmt'], case['target']], nontrivial=True, stratum='LE')
+    tree = None
+    try:
+        try:
+            if via in ('file', 'dir-file', 'file-over-registered', 'load'):
+                in_dir = [n for n, _ in pairs if via == 'dir-file' and n == 'x.blank']
+                main_text = files.render(dict((n, v) for n, v in pairs if n not in in_dir), case['fmt'])
+                dir_text = files.render(dict((n, v) for n, v in pairs if n in in_dir), case['fmt'])
+        except Exception as e:
+            ctx.unconstrained('blank-entry-case-not-rendered-' + type(e).__name__)
+            return
+        try:
+            if via in ('file', 'dir-file', 'file-over-registered'):
+                tree = files.Tree(dirs=('d1',) if via == 'dir-file' else ())
+                tree.write_text('policy.yaml', main_text)
+                if via == 'dir-file':
+                    tree.write_text('d1/extra.yaml', dir_text)
+                enf = policy.Enforcer(tree.conf())
+                if via == 'file-over-registered':
+                    enf.register_default(policy.RuleDefault('x.blank', case['registered_text']))
+                enf.load_rules()
+            elif via == 'ruledefault':
+                enf = policy.Enforcer(env.fresh_conf(), use_conf=True)
+                for n, v in pairs:
+                    enf.register_default(policy.RuleDefault(n, v))
+                enf.load_rules()
+            else:
+                enf = policy.Enforcer(env.fresh_conf(), use_conf=False)
+                enf.set_rules(policy.Rules.from_dict(dict(pairs)) if via == 'dict' else policy.Rules.load(main_text))
+        except Exception as e:
+            if via in ('dict', 'load', 'ruledefault'):
+                ctx.violation('load-raises', case, {'rules': dict(pairs), 'route': via, 'observed': type(e).__name__ + ': ' + str(e)[:100]})
+            else:
+                ctx.unconstrained('blank-entry-enforcer-not-built-' + type(e).__name__)
+            return
+        with (env.debug_logging() if case.get('debug') else contextlib.nullcontext()):
+            for name in ['x.blank'] + sorted(case['ref_kinds']):
+                for roles in LE_ROLE_SETS:
+                    as_deny, as_allow = (le_reference(value, roles, blank) for blank in (False, True))
+                    if case['ref_kinds'].get(name) == 'negated':
+                        as_deny, as_allow = not as_deny, not as_allow
+                    handles = [('name', name)]
+                    if case['as_object']:
+                        try:
+                            handles.append(('check object', enf.rules[name]))
+                        except Exception:
+                            ctx.unconstrained('blank-entry-rule-not-in-the-store')
+                    for passed_as, rule in handles:
+                        for do_raise in (False, True):
+                            o = enforce_outcome(enf, rule, case['target'], {'roles': list(roles)}, do_raise)
+                            ctx.count('blank_entry_enforce_calls')
+                            ctx.count('blank_entry_enforce_calls.' + via)
+                            detail = {'rules': dict(pairs), 'route': via, 'format': case['fmt'], 'enforced': name, 'passed_as': passed_as,
+                                      'roles': roles, 'do_raise': do_raise}
+                            if o[0] == 'raised' and o[1] not in DOCUMENTED:
+                                ctx.violation('undocumented-exception-' + o[1], case, dict(detail, observed='%s: %s' % o[1:]))
+                                return
+                            if o[0] == 'raised' and o[1] not in DENIALS:
+                                ctx.unconstrained('blank-entry-rule-raised-a-documented-exception')
+                                continue
+                            ctx.count('blank_entry_decisions')
+                            allowed = o == ('decision', True)
+                            if allowed == as_deny:
+                                continue
+                            if allowed == as_allow:
+                                # the decision is the one the rule has when the blank conjunct allows (or is left out)
+                                ctx.violation('unevaluable-check-allows', case,
+                                              dict(detail, observed=list(o), expected='allow' if as_deny else 'deny',
+                                                   why='a blank entry of an inner list cannot be understood as a check: it denies, it is not dropped'))
+                                return
+                            ctx.unconstrained('blank-entry-rule-decides-otherwise')
+    finally:
+        if tree is not None:
+            tree.cleanup()
+
+
 def check_case(ctx, real, case):
     policy, enf = real
+    if case['kind'] == 'PK':
+        return check_placeholder_keys(ctx, real, case)
+    if case['kind'] == 'LE':
+        return check_blank_entries(ctx, real, case)
     if case['kind'] == 'M':
         return check_containers(ctx, real, case)
     if case['kind'] == 'T':
@@ -1222,6 +1581,17 @@ def run(ctx):
         if i == 0:
             ctx.sample({'rules': case['rules'], 'target': case['target'], 'creds': case['creds'], 'registered': case['registered'],
                         'routes': case['routes']}, 'O')
+    # strata PK / LE (placeholder keys that are not identifiers against flat targets; blank entries inside inner lists):
+    # small, early, with their own streams
+    ctx.stratum('placeholder-keys-and-blank-entries', exhaustive=False)
+    for tag, total, gen in (('PK', PK_CASES, gen_placeholder_key_case), ('LE', LE_CASES, gen_blank_entry_case)):
+        for i in range(total[ctx.tier] // ctx.nshards + 1):
+            if (i & 0xf) == 0 and ctx.expired():
+                break
+            case = gen(ctx.sub_rnd(tag, ctx.tier, ctx.shard, ctx.nshards, i))
+            check_case(ctx, (policy, enf), case)
+            if i == 0:
+                ctx.sample(case, tag)
     # strata FI / FK (odd shapes inside list rules of policy files; rule names that are not text), with their own streams
     ctx.stratum('file-shapes', exhaustive=False)
     for tag, total, gen in (('FI', INNER_CASES, gen_inner_list_case), ('FK', NAME_CASES, gen_nontext_name_case)):
